@@ -130,11 +130,11 @@ func runC09(c *vc.Ctx) error {
 	// same generator and same streams as C08 (the sequences are the same ones),
 	// restricted to the four collection types plus KV commands on the same key
 	// names, then the same sequences applied in apply batches.
-	nRandom := c.Pick(1000, 30000)
+	nRandom := c.Pick(800, 30000)
 	cp.run(nRandom, func(i int) caseSpec {
 		return caseSpec{Name: fmt.Sprintf("random-%d", i), Ops: randomSeq(c, 8, i, false), Store: storeCfgs[i%len(storeCfgs)]}
 	})
-	nBatch := c.Pick(500, 15000)
+	nBatch := c.Pick(400, 15000)
 	cp.run(nBatch, func(i int) caseSpec {
 		return caseSpec{Name: fmt.Sprintf("batched-%d", i), Ops: randomSeq(c, 9, i, false), Store: storeCfgs[i%len(storeCfgs)], Batch: true}
 	})
@@ -144,7 +144,7 @@ func runC09(c *vc.Ctx) error {
 	var picked []int
 	if !c.Thorough() {
 		r := c.Rand(91)
-		picked = make([]int, 4000)
+		picked = make([]int, 3000)
 		for i := range picked {
 			picked[i] = r.Intn(total)
 		}
